@@ -175,6 +175,9 @@ RefIsOpt == (pc = "loop" /\ t = T0) =>
                /\ \A T \in 1..N : Ref[T] = OptSaving(S, pen, P, T, M, Mx)
                /\ \A T \in 0..N : ValidRec[T] = ValidSets(T, M, Mx)
 
+RefSeqIsRef == (pc = "loop" /\ t = T0) =>
+    LET q == OptRefSeq(S, pen, P, N, M, Mx) IN \A T \in 0..N : q[T + 1] = Ref[T]
+
 \* each branch of penalise_savings equals the definition whenever that is positive, and is <= 0
 \* whenever the definition is <= 0 (then it cannot win the arg-max)
 BranchAgrees == (pc = "loop" /\ t = T0) =>
